@@ -177,8 +177,9 @@ def fromList (s : Str) : Option Seq := literalSeq (replaceC ' ' ',' s)
 
 /-! ### material properties: `_material_<key>` (CSV, Excel) / `sample_<key>` (AIF)
 
-writer: `f"{P}{key}"`; reader: `if key.startswith(P): material[key.replace(P, "")] = val` and later `raw_dict.pop(P + key')`.
-`str.replace` removes EVERY occurrence of `P`, not only the leading one. -/
+writer: `f"{P}{key}"`; reader: `if key.startswith(P): material[<name>] = val` and later `raw_dict.pop(P + name)`, where `<name>` is
+`key.replace(P, "")` (`Strip.replaceAll`: `str.replace` removes EVERY occurrence of `P`, not only the leading one) or `key[len(P):]`
+(`Strip.leading`).  Which of the two a reader uses is read off the source (Gen/Formats, field `strip`). -/
 
 /-- `s.replace(p, "")` for non-empty `p`: leftmost, non-overlapping occurrences removed.  `skip` = characters of the current
 occurrence still to be dropped. -/
@@ -197,10 +198,27 @@ inductive MatRead
 
 def matJoin (p k : Str) : Str := p ++ k
 
-/-- what the reader does with one key of the document -/
+/-- what the reader does with one key of the document when it takes the name with `key.replace(P, "")` -/
 def matRead (p key : Str) : MatRead :=
   if p.isPrefixOf key then
     let name := removeAll p key
+    if p ++ name == key then .prop name else .keyError
+  else .notMaterial
+
+/-- how a reader obtains the property name from a key that starts with the prefix -/
+inductive Strip
+  | replaceAll     -- `key.replace(P, "")`
+  | leading        -- `key[len(P):]`
+  deriving DecidableEq, Repr
+
+def matName : Strip → Str → Str → Str
+  | .replaceAll, p, key => removeAll p key
+  | .leading, p, key => key.drop p.length
+
+/-- what the reader does with one key of the document, for either way of taking the name -/
+def matReadBy (m : Strip) (p key : Str) : MatRead :=
+  if p.isPrefixOf key then
+    let name := matName m p key
     if p ++ name == key then .prop name else .keyError
   else .notMaterial
 
